@@ -5,7 +5,7 @@
 #  sim  : one small SimNet world (node threads handed the baton through condvars)
 # exit 0 clean, 1 race report / monitor violation, 2 inconclusive (build trouble, watchdog)
 prop=$1; tier=$2; seed=$3; shift 3
-cd /verif/harness || exit 2
+ROOT="$(cd "$(dirname "$0")/.." && pwd)"; cd "$ROOT/harness" || exit 2
 export CARGO_NET_OFFLINE=true
 export RUSTFLAGS='-Zsanitizer=thread --cfg mainline_verif --cfg getrandom_backend="custom"'
 cargo +nightly build --quiet --offline -Zbuild-std --target x86_64-unknown-linux-gnu --target-dir target/tsan 2> target/tsan-build.err || { tail -5 target/tsan-build.err; echo "tsan build failed"; exit 2; }
